@@ -140,10 +140,15 @@ func BuildDrivers(g *Gocc, grammars []*corpus.Grammar, variants []Variant, race 
 		}
 		d.List = keep
 	}
-	// Generated code that does not compile: find out which grammars, drop them
-	// from the driver list and let the check decide what that means.
 	d.Broken = map[string]string{}
-	if out, err := scratch.Run(d.Dir, scratch.GoEnv(), scratch.GoBin(), "build", "-gcflags=-e", "./gen/..."); err != nil {
+	// diagnose finds the grammars whose generated code does not compile, drops them
+	// from the driver list and records the compiler output (the check decides what
+	// that means).  It is only run when instrumenting or building fails.
+	diagnose := func() error {
+		out, err := scratch.Run(d.Dir, scratch.GoEnv(), scratch.GoBin(), "build", "-gcflags=-e", "./gen/...")
+		if err == nil {
+			return nil
+		}
 		byDir := map[string]string{}
 		for _, line := range strings.Split(out, "\n") {
 			if !strings.HasPrefix(line, "gen/") {
@@ -157,14 +162,16 @@ func BuildDrivers(g *Gocc, grammars []*corpus.Grammar, variants []Variant, race 
 			if msg, bad := byDir[dirName(drv.Grammar.ID)]; bad {
 				d.Broken[drv.Grammar.ID] = msg
 				os.RemoveAll(filepath.Join(d.Dir, "gen", dirName(drv.Grammar.ID)))
+				os.RemoveAll(filepath.Join(d.Dir, "cmd", dirName(drv.Grammar.ID)))
 			} else {
 				keep = append(keep, drv)
 			}
 		}
 		if len(d.Broken) == 0 {
-			return nil, fmt.Errorf("WORKLOAD-INVALID: generated code does not build: %s", clipOut(out))
+			return fmt.Errorf("WORKLOAD-INVALID: generated code does not build: %s", clipOut(out))
 		}
 		d.List = keep
+		return nil
 	}
 	if instrument && len(d.List) > 0 {
 		c, err := rewrite.Instrument(rewrite.Options{
@@ -178,10 +185,25 @@ func BuildDrivers(g *Gocc, grammars []*corpus.Grammar, variants []Variant, race 
 			Env:       scratch.GoEnv(),
 		})
 		if err != nil {
-			return nil, fmt.Errorf("WORKLOAD-INVALID: generated code cannot be loaded/instrumented: %v", err)
+			// probably generated code that does not compile: find the grammars, drop them, retry once
+			if derr := diagnose(); derr != nil {
+				return nil, derr
+			}
+			if len(d.Broken) == 0 {
+				return nil, fmt.Errorf("WORKLOAD-INVALID: generated code cannot be loaded/instrumented: %v", err)
+			}
+			if len(d.List) > 0 {
+				c, err = rewrite.Instrument(rewrite.Options{Dir: d.Dir, Patterns: []string{"./gen/..."}, OwnPrefix: DrvModule + "/gen/", RTImport: DrvModule + "/gsim",
+					StepFunc: "Yield", StepArg: true, KnobConst: "iNITIAL_STACK_SIZE", Env: scratch.GoEnv()})
+				if err != nil {
+					return nil, fmt.Errorf("WORKLOAD-INVALID: generated code cannot be loaded/instrumented: %v", err)
+				}
+			}
 		}
-		d.Census = c
-		d.SiteNames = c.StepSiteNames
+		if c != nil {
+			d.Census = c
+			d.SiteNames = c.StepSiteNames
+		}
 	}
 	if d.Census == nil {
 		d.Census = &rewrite.Census{}
@@ -215,7 +237,19 @@ func BuildDrivers(g *Gocc, grammars []*corpus.Grammar, variants []Variant, race 
 	args = append(args, "-o", outDir+"/", "./cmd/...")
 	out, err := scratch.Run(d.Dir, scratch.GoEnv(), scratch.GoBin(), args...)
 	if err != nil {
-		return nil, fmt.Errorf("WORKLOAD-INVALID: generated code (or its glue) does not build: %v\n%s", err, clipOut(out))
+		before := len(d.Broken)
+		if derr := diagnose(); derr != nil {
+			return nil, derr
+		}
+		if len(d.Broken) == before {
+			return nil, fmt.Errorf("WORKLOAD-INVALID: generated code (or its glue) does not build: %v\n%s", err, clipOut(out))
+		}
+		if len(d.List) == 0 {
+			return d, nil
+		}
+		if out, err = scratch.Run(d.Dir, scratch.GoEnv(), scratch.GoBin(), args...); err != nil {
+			return nil, fmt.Errorf("WORKLOAD-INVALID: generated code (or its glue) does not build: %v\n%s", err, clipOut(out))
+		}
 	}
 	for i, drv := range d.List {
 		drv.Bin = filepath.Join(outDir, dirName(drv.Grammar.ID))
